@@ -73,6 +73,17 @@ PROPS = {
         assumptions=['requests never arrive exactly on a timer boundary (select would choose at random)'],
         explanation='Lean: fail_closed, not_served_before_init, empty_issuer_never_served, heals (any finite fault script, bound on the instant), served_after_init, latest_wins, round_first_healthy; facts: initializeMetadata loops, constants; tie: status of every request, document in force, exact virtual instants of every discovery attempt incl. the hourly refresh; oracle: nothing but 503/408 before a healthy answer completed, serving hours after recovery',
     ),
+    'C05': dict(
+        family='sched', driver_family='handler', fields=['class', 'code', 'calls', 'loc', 'jar', 'hdrs', 'down'], facts=['poolPutCount', 'poolPutOnlyBeforeNilReturn', 'cacheLockedMethods', 'cacheUnlockedMethods'],
+        race=True, crash_is_violation=True, timeout=1500,
+        trusted=['Go memory model, sync.Mutex, sync.Pool, the scheduler: data races, deadlocks and runtime aborts are outside the Lean model; the -race stress run of the thorough tier is supporting evidence only',
+                 'interleavings are explored at scheduling-point granularity (ResponseWriter methods, provider calls, downstream entry); code between two points runs alone'],
+        rule='one case = one request served concurrently under a deterministic schedule on a real instance: pairs (anonymous x logged-in small/multi-chunk, anonymous x anonymous, logged-in x logged-in, x logout, x callback) with every cut point '
+             'of the first request in both orders, sampled triples; each response is one step of the handler protocol for its own browser and is compared with the model\'s solo prediction; plus an unscheduled 8-goroutine stress; '
+             'distinct = distinct (request kind, schedule, observation); non-trivial = all',
+        assumptions=['objects not shared through the pool or a mutex are request-local (the fact extractor checks the pool discipline)'],
+        explanation='Lean: isolation (every schedule, any number of requests: completed requests emit their solo output), ownership_step; facts: pool discipline; tie: every concurrently served response equals serveJar on its own jar (the model of serving it alone); oracles: Location state = own cookie csrf, anonymous requests never receive a session, forwarded identity is the own one, no panic, no deadlock',
+    ),
     'C02': dict(
         family='jwt', fields=['r'], crash_is_violation=True,
         facts=['supportedAlgs', 'hashAlgs', 'rsaAlgPrefixes', 'ecAlgPrefixes', 'skewFutureSec', 'skewPastSec', 'nbfTypeChecked', 'ecdsaSigLenExact'],
